@@ -5,6 +5,7 @@ cd "$(dirname "$0")"
 export GOFLAGS=-mod=mod GOPROXY=off
 unset GOTOOLCHAIN GOSUMDB || true
 mkdir -p .build evidence replays
+python3 tools/genglue.py
 cp /repo/go.sum go/go.sum
 (cd go && go build -tags verif -o ../.build/zvharness ./cmd/zvharness)
 if [ -d go/cmd/zvextract ]; then
